@@ -36,7 +36,7 @@ struct LenpHarness : Harness {
     std::vector<std::string> props() const override { return {"C13"}; }
     std::vector<std::string> probes(const std::string &) const override {
         return {"varint_prefix_1", "varint_prefix_2", "varint_prefix_3plus", "buffer_with_offset_and_free_space", "chunk_list_with_empty_chunk", "chunk_list_active_nonzero",
-                "frame_split_inside_prefix", "destination_one_octet_too_small", "over_maximum_refused", "second_task_framed_during_a_sink_call", "varint_through_header_wrapper", "source_lends_its_window", "prefix_declares_more_than_any_destination", "unmaterialised_length_accepted", "kind_maximum_accepted", "sink_error_mid_frame", "buffer_n_less_than_rest",
+                "frame_split_inside_prefix", "destination_one_octet_too_small", "over_maximum_refused", "total_beyond_ssize_max_refused", "second_task_framed_during_a_sink_call", "varint_through_header_wrapper", "source_lends_its_window", "prefix_declares_more_than_any_destination", "unmaterialised_length_accepted", "kind_maximum_accepted", "sink_error_mid_frame", "buffer_n_less_than_rest",
                 "n_beyond_unread_refused", "fragmented_decode", "append_behind_existing_content", "multi_frame_stream_fragmented", "source_interruption_during_decode"};
     }
     uint64_t runs(const std::string &, const Tier &t) const override { return t.thorough() ? 10000000 : 1200000; }
@@ -91,7 +91,7 @@ struct LenpHarness : Harness {
             
             o["len"] = (long long)len;
             if (enc && r.chance(1, 10)) {   // lengths that cannot be materialised: the kinds' maxima and their neighbours, accepted and refused
-                o["huge"] = (long long)r.below(20);
+                o["huge"] = (long long)r.below(24);
                 static const int64_t CAPS[] = {INT64_MAX, INT64_MAX, 1ll << 31, (1ll << 31) - 1, 1ll << 32, 1ll << 30, 1, 3, 0, -EINTR, -EAGAIN};
                 Json caps = Json::arr(); int nc = (int)r.below(6); for (int q = 0; q < nc; ++q) caps.push((long long)CAPS[r.below(11)]);
                 o["hcaps"] = caps;
@@ -246,11 +246,12 @@ struct LenpHarness : Harness {
             Buf m; m.make(len, len, 0, oi, 1);
             void *ptr = m.b.data;
             if (o.has("huge")) {   // declared length cannot be materialised, payload memory must not be touched
-                static const uint64_t HUGE_[20] = {0x100000000ull, (uint64_t)SSIZE_MAX + 1ull, 0x100000001ull, 0xffffffffull, 0xfffffffeull, 0x80000000ull, 0x7fffffffull, 0x80000001ull,
+                static const uint64_t HUGE_[24] = {0x100000000ull, (uint64_t)SSIZE_MAX + 1ull, 0x100000001ull, 0xffffffffull, 0xfffffffeull, 0x80000000ull, 0x7fffffffull, 0x80000001ull,
                                                    65535, 65536, 65537, 0x10000000ull /* varint 4/5 */, 0xfffffffull, 0x200000000ull, 0x7ffffffffull, 0x7ffffff80ull,
-                                                   (uint64_t)SSIZE_MAX, 1ull << 56, (1ull << 56) - 1, 1ull << 49};
+                                                   (uint64_t)SSIZE_MAX, 1ull << 56, (1ull << 56) - 1, 1ull << 49,
+                                                   (uint64_t)SSIZE_MAX - 8, (uint64_t)SSIZE_MAX - 9, (uint64_t)SSIZE_MAX - 10, (uint64_t)SSIZE_MAX - 1};   // prefix + payload just over / just within SSIZE_MAX
                 int64_t hi = o.geti("huge"); if (hi < 0) hi = 0;
-                n = HUGE_[hi % 20];
+                n = HUGE_[hi % 24];
                 if (n <= kind_max(k) && n <= (uint64_t)SSIZE_MAX) {
                     // accepted: the frame is real, only its payload is never looked at
                     COUNT("probe.unmaterialised_length_accepted");
@@ -267,7 +268,17 @@ struct LenpHarness : Harness {
                         return;
                     }
                     unsigned char *base = huge_base();
-                    if (!base || n > ((uint64_t)1 << 35) - 4096) { c.ops_done--; c.execs--; return; }   // beyond the reserved range: prefix-object form only
+                    if (!base) { c.ops_done--; c.execs--; return; }
+                    // (beyond the reserved range the pointers handed to the driver are never dereferenced either: only their arithmetic is checked)
+                    if ((uint64_t)n + ref_prefix(k, n).size() > (uint64_t)SSIZE_MAX) {   // the total cannot be reported: refused before anything is emitted
+                        VirtualDrv D0; D0.c = &c; D0.base = base; D0.total = n; D0.accept_small = true;
+                        Sink v0; chunk_sink_init(&v0, VirtualDrv::sink_cb, &D0);
+                        ssize_t rc0 = 0; bool fin0 = WITH_BUDGET(c, 64, rc0 = LENP(memory_to_sink, &v0, base, (size_t)n));
+                        c.ev(EV_API, 1, (uint64_t)rc0, D0.moved);
+                        COUNT("probe.total_beyond_ssize_max_refused");
+                        if (!fin0 || rc0 != -EINVAL || D0.calls != 0) F("refuse", "prefix plus %llu payload octets exceed SSIZE_MAX: returned %zd after %llu sink calls, expected -EINVAL and nothing emitted", (unsigned long long)n, rc0, (unsigned long long)D0.calls);
+                        return;
+                    }
                     VirtualDrv D; D.c = &c; D.base = base; D.total = n; D.accept_small = true;
                     const Json &cj = o.get("hcaps"); for (size_t i = 0; i < cj.size() && i < 16; ++i) D.caps.push_back(cj.ati(i, INT64_MAX));
                     Sink vk; chunk_sink_init(&vk, VirtualDrv::sink_cb, &D);
